@@ -125,6 +125,34 @@ def worker(case, led):
                 led.check(d <= bnd, f"post:Mps.evolve[{method}]:solver_independent", f"Mps._evolve_{method}",
                           f"krylov vs RK45 differ by {d:.3e} > {bnd:.3e} at |H|dt={x}", (name, n, method, "solvers", x), {"method": method},
                           {"model": name, "nsites": n, "method": method, "x=|H|dt": x, "seed": seed})
+        # documented switches of the variational schemes (secondary code paths): the overlap-free form of VMF, the CMF variants (trapezoidal mean fields, no midpoint)
+        tight = {"ivp_rtol": 1e-9, "ivp_atol": 1e-11}      # the bound of the exact-at-full-rank schemes is the local solver tolerance: make it tight
+        variants = {"tdvp_vmf": [dict(tight, force_ovlp=False), dict(tight, force_ovlp=True)], "tdvp_mu_vmf": [dict(tight, force_ovlp=False), dict(tight, force_ovlp=True)],
+                    "tdvp_mu_cmf": [{"tdvp_cmf_c_trapz": True}, {"tdvp_cmf_midpoint": False}]}.get(method, [])
+        for opts in variants:
+            for x in (0.1, 0.3):
+                dt = x / hn
+                ref = scipy.linalg.expm(-1j * dt * Hd) @ v0
+                key = (name, n, method, "variant", x, str(opts))
+                rep = {"model": name, "nsites": n, "method": method, "x=|H|dt": x, "dt": dt, "seed": seed, "evolve_config_switches": opts,
+                       "how": "props.C09.prepare(model, nsites, rng); set_evolve; the switches are set on evolve_config (force_ovlp through the constructor)"}
+                fields = {"method": method, "switches": str(opts)}
+                try:
+                    m = a.copy()
+                    Dn.set_evolve(m, method, M=64, **{k: v for k, v in opts.items() if not k.startswith("tdvp_")})
+                    for k_, v_ in opts.items():
+                        if k_.startswith("tdvp_"):
+                            setattr(m.evolve_config, k_, v_)
+                    r = m.evolve(H, dt)
+                except Exception as e:
+                    led.check(False, f"post:Mps.evolve[{method}]:total", f"Mps._evolve_{method}", f"raised {type(e).__name__}: {e} with {opts}", key, fields, rep)
+                    continue
+                err = np.linalg.norm(S.dense(r) - ref)
+                # without the midpoint the frozen mean fields are those of the start of the step: first order, local error <= x^2
+                bnd = (x ** 2 * nrm + solver_bound(m.evolve_config, n, nrm)) if opts.get("tdvp_cmf_midpoint") is False else bound_for(method, x, m, n, nrm)
+                led.check(err <= bnd, f"post:Mps.evolve[{method}]:error_within_scheme_bound", f"Mps._evolve_{method}",
+                          f"|psi - exp(-iHt)psi0| = {err:.3e} > bound {bnd:.3e} at |H|dt={x} with {opts}", key, fields, rep)
+                led.check(np.abs(S.dense(a) - v0).max() <= 1e-12, f"frame:Mps.evolve[{method}]:input", f"Mps._evolve_{method}", "input changed", key + ("frame",), fields, rep)
         # split independence: U(t) vs U(t/2)U(t/2)
         x = 0.3
         dt = x / hn
